@@ -45,3 +45,47 @@ Theorem C02_frame_finer_untouched F m xff L logs a pts logs' :
   (forall j, 0 <= j < a -> get_log logs' j = get_log logs j) /\ zlen logs' = zlen logs.
 Proof. exact (spec_archive_update_frame F m xff L logs a pts logs'). Qed.
 Print Assumptions C02_frame_finer_untouched.
+
+(** ** what one coarser slot becomes (read off the specification the code refines) *)
+From WT Require Import Proofs.CoreCorollaries.
+
+(** nothing known for the coarser interval: nothing is stored and nothing is propagated further —
+    an aggregate (0, NaN, a panic) is never invented from an empty set of known values *)
+Theorem C02_never_from_empty F m xff L logs l acc t :
+  known_log (get_log logs (l - 1)) (lay_period L (l - 1)) t (lay_step L (l - 1))
+            (Z.to_nat (lay_step L l / lay_step L (l - 1))) = [] ->
+  spec_propagate_one F m xff L logs l acc t = Some (logs, acc).
+Proof. exact (never_from_empty F m xff L logs l acc t). Qed.
+Print Assumptions C02_never_from_empty.
+
+(** known fraction below xFilesFactor: everything is left exactly as it was *)
+Theorem C02_below_threshold_unchanged F m xff L logs l acc t :
+  f_frac_lt F (zlen (known_log (get_log logs (l - 1)) (lay_period L (l - 1)) t (lay_step L (l - 1))
+                               (Z.to_nat (lay_step L l / lay_step L (l - 1)))))
+            (lay_step L l / lay_step L (l - 1)) xff = true ->
+  spec_propagate_one F m xff L logs l acc t = Some (logs, acc).
+Proof. exact (below_threshold_unchanged F m xff L logs l acc t). Qed.
+Print Assumptions C02_below_threshold_unchanged.
+
+(** otherwise exactly one entry is appended to the coarser log: the aggregate of the known finer
+    values in time order; recomputation continues to the next level only for this stored slot *)
+Theorem C02_stored_value F m xff L logs l acc t v :
+  let kv := known_log (get_log logs (l - 1)) (lay_period L (l - 1)) t (lay_step L (l - 1))
+                      (Z.to_nat (lay_step L l / lay_step L (l - 1))) in
+  kv <> [] -> f_frac_lt F (zlen kv) (lay_step L l / lay_step L (l - 1)) xff = false -> aggregate F m kv = Some v ->
+  spec_propagate_one F m xff L logs l acc t =
+  Some (add_log logs l (mkPoint t v),
+        if l + 1 <? Z.of_nat (length L) then push_dedup acc (t - t mod lay_step L (l + 1)) else acc).
+Proof. exact (stored_value F m xff L logs l acc t v). Qed.
+Print Assumptions C02_stored_value.
+
+(** the six aggregation methods over the known values in time order, for every float-operation record *)
+Theorem C02_methods F kv x r : kv = x :: r ->
+  aggregate F Average kv = Some (f_div_len F (fsum F kv) (zlen kv)) /\
+  aggregate F Sum kv = Some (fsum F kv) /\
+  aggregate F First kv = Some x /\
+  aggregate F Last kv = Some (last kv x) /\
+  aggregate F Max kv = Some (fold_left (fun mx v => if f_lt F mx v then v else mx) kv x) /\
+  aggregate F Min kv = Some (fold_left (fun mn v => if f_lt F v mn then v else mn) kv x).
+Proof. exact (aggregate_methods F kv x r). Qed.
+Print Assumptions C02_methods.
